@@ -16,7 +16,8 @@ from rv import canary, gen, refcodec as rc, vnet
 PROPERTY = "C09"
 LEVEL = "exploration"
 RULE = ("every BaseException subclass found in builtins at run time (constructible ones; KeyboardInterrupt only with the "
-        "switch that routes it to the peer) x generated argument tuples (plain values, non-plain values, class-specific "
+        "switch that routes it to the peer) x generated argument tuples (plain values, non-plain values, tuples mixing immutable "
+        "containers with non-plain values, class-specific "
         "constructor shapes) x 2^2 sender switches x 2^2 receiver switches; custom classes: defined in an imported module, "
         "importable canary module (file on sys.path that logs when executed), unknown module; hostile MSG_EXCEPTION "
         "payloads (shared grammar with C07). distinct = (class, argument shape classes, switches) or payload bytes; "
